@@ -131,6 +131,22 @@ func c16Exec(op string) string {
 	if a := ascending(x0); a != "" {
 		note(a)
 	}
+	// an explicit root tag: Xml("doc") is Xml() for a Map with several keys; for a single non-list
+	// key it wraps the document
+	if len(mv) > 1 {
+		if xd, err := mv.Xml("doc"); err != nil || !bytes.Equal(xd, x0) {
+			note("Map.Xml(\"doc\") differs from Map.Xml() for a Map with several keys")
+		}
+	} else if len(mv) == 1 {
+		for k, v := range mv {
+			_, isList := v.([]interface{})
+			if !isList && !strings.HasPrefix(k, "-") && k != "#text" {
+				if xw, err := mv.Xml("wrap"); err != nil || string(xw) != "<wrap>"+string(x0)+"</wrap>" {
+					note("Map.Xml(rootTag) is not the compact document wrapped in the root tag")
+				}
+			}
+		}
+	}
 	// Writer forms - each after a Writer-form call that failed part-way (nothing of a failed
 	// call may show up in a later one)
 	{
@@ -179,6 +195,23 @@ func c16Exec(op string) string {
 			}
 			if s, _ := mk.XmlIndent(pre, ind); !bytes.Equal(s, si0) {
 				note("MapSeq.XmlIndent() differs for an equal MapSeq built in another insertion order")
+			}
+		}
+		// an explicit root tag only wraps the document: same compact bytes inside, and the Writer
+		// forms with a root tag write what the byte forms with that root tag return
+		if len(ms) == 1 {
+			if sw, err := ms.Xml("wrap"); err != nil || string(sw) != "<wrap>"+string(s0)+"</wrap>" {
+				note("MapSeq.Xml(rootTag) is not the compact document wrapped in the root tag")
+			}
+			siw, _ := ms.XmlIndent(pre, ind, "wrap")
+			w.Reset()
+			if err := ms.XmlIndentWriter(&w, pre, ind, "wrap"); err != nil || !bytes.Equal(w.Bytes(), siw) {
+				note("MapSeq.XmlIndentWriter(rootTag) wrote other bytes than XmlIndent(rootTag) returns")
+			}
+			w.Reset()
+			sw, _ := ms.Xml("wrap")
+			if err := ms.XmlWriter(&w, "wrap"); err != nil || !bytes.Equal(w.Bytes(), sw) {
+				note("MapSeq.XmlWriter(rootTag) wrote other bytes than Xml(rootTag) returns")
 			}
 		}
 		w.Reset()
